@@ -354,6 +354,15 @@ class Executor:
         # Run the step
         async with self.db:
             step.reset_for_rerun()
+            # The job was derived before the reset dropped the inputs that an earlier run
+            # had amended. They were hashed along with the others, but the step is not
+            # given them: if it amends them again, what they look like then is the baseline.
+            current = {record.path for record in step.inp_paths()}
+            run.start_inp_hashes = {
+                path: inp_hash
+                for path, inp_hash in run.start_inp_hashes.items()
+                if path in current
+            }
         self._report_step_counts()
         await self._run_command(run)
 
